@@ -124,12 +124,20 @@ def install(start=None):
   loop = VLoop(clock)
   _time.time = clock.time
 
+  def blocking_sleep(secs):
+    # a non-cooperative sleep in the code under test: the clock moves on, no greenlet runs
+    clock.now += max(0.0, float(secs))
+    blocking_sleeps.append(float(secs))
+  blocking_sleeps = []
+  _time.sleep = blocking_sleep
+
   import gevent._hub_local as hl
   hl.set_loop(loop)
   import gevent
   import gevent.hub
 
   env = Env(clock, loop, repo)
+  env.blocking_sleeps = blocking_sleeps     # durations of time.sleep() calls made inside the virtual world
 
   def print_exception(hub, context, t, v, tb):
     import traceback
